@@ -38,6 +38,8 @@ pub enum StartTlsResp {
     Code(u32),
     /// a non-zero result code that does not fit 32 bits
     CodeWide(u64),
+    /// a non-zero result code given by the content octets of its ENUMERATED (nine or more octets)
+    CodeOctets(Vec<u8>),
     Garbage,
     Close,
     Silent,
@@ -71,7 +73,13 @@ pub enum Peer {
     /// nothing listens
     Absent,
     /// TLS-capable scripted server
-    Tls { starttls: StartTlsResp, tls: TlsBehaviour },
+    Tls {
+        starttls: StartTlsResp,
+        tls: TlsBehaviour,
+        /// present a certificate for "localhost" issued by a CA nobody trusts
+        #[serde(default)]
+        rogue: bool,
+    },
 }
 
 #[derive(Clone, Debug, PartialEq, Serialize, Deserialize)]
@@ -138,6 +146,9 @@ pub struct Pki {
     pub ca_pem: Vec<u8>,
     pub leaf_pem: Vec<u8>,
     pub leaf_key_pem: Vec<u8>,
+    /// a leaf for "localhost" issued by a second CA that neither the custom connector nor the "system store" knows
+    pub rogue_leaf_pem: Vec<u8>,
+    pub rogue_leaf_key_pem: Vec<u8>,
 }
 
 fn make_cert(cn: &str, san_dns: Option<&str>, issuer: Option<(&openssl::x509::X509, &openssl::pkey::PKey<openssl::pkey::Private>)>, is_ca: bool) -> (openssl::x509::X509, openssl::pkey::PKey<openssl::pkey::Private>) {
@@ -191,9 +202,57 @@ pub fn pki() -> &'static Pki {
     P.get_or_init(|| {
         let (ca, ca_key) = make_cert("ldapsim test CA", None, None, true);
         let (leaf, leaf_key) = make_cert("localhost", Some("localhost"), Some((&ca, &ca_key)), false);
-        Pki { ca_pem: ca.to_pem().unwrap(), leaf_pem: leaf.to_pem().unwrap(), leaf_key_pem: leaf_key.private_key_to_pem_pkcs8().unwrap() }
+        let (rca, rca_key) = make_cert("ldapsim rogue CA", None, None, true);
+        let (rleaf, rleaf_key) = make_cert("localhost", Some("localhost"), Some((&rca, &rca_key)), false);
+        Pki {
+            ca_pem: ca.to_pem().unwrap(),
+            leaf_pem: leaf.to_pem().unwrap(),
+            leaf_key_pem: leaf_key.private_key_to_pem_pkcs8().unwrap(),
+            rogue_leaf_pem: rleaf.to_pem().unwrap(),
+            rogue_leaf_key_pem: rleaf_key.private_key_to_pem_pkcs8().unwrap(),
+        }
     })
 }
+
+/// Path of the file through which this process's "system certificate store" is the harness CA.
+fn system_store_path() -> String {
+    format!("/tmp/ldapsim-ca-{}.pem", std::process::id())
+}
+
+/// Makes the harness CA the system trust store of this process: OpenSSL's default verify paths (native-tls's
+/// default connector) and rustls-native-certs (the default rustls configuration of ldap3) both honour
+/// SSL_CERT_FILE. Called once, first thing in `main`, before any thread exists; so a connection opened with
+/// the library's *default* TLS configuration verifies the peer against the harness CA.
+pub fn init_system_trust() {
+    let path = system_store_path();
+    if std::fs::write(&path, &pki().ca_pem).is_ok() {
+        std::env::set_var("SSL_CERT_FILE", &path);
+    }
+}
+
+pub fn drop_system_trust() {
+    let _ = std::fs::remove_file(system_store_path());
+}
+
+/// Client-side TLS configuration that trusts the harness CA (and nothing else), for the backend this
+/// binary was built with.
+#[cfg(feature = "native-backend")]
+pub fn trust_harness_ca(settings: ldap3::LdapConnSettings) -> ldap3::LdapConnSettings {
+    let ca = native_tls::Certificate::from_pem(&pki().ca_pem).expect("ca");
+    let conn = native_tls::TlsConnector::builder().add_root_certificate(ca).build().expect("connector");
+    settings.set_connector(conn)
+}
+
+#[cfg(feature = "rustls-backend")]
+pub fn trust_harness_ca(settings: ldap3::LdapConnSettings) -> ldap3::LdapConnSettings {
+    let der = openssl::x509::X509::from_pem(&pki().ca_pem).expect("ca").to_der().expect("der");
+    let mut store = rustls::RootCertStore::empty();
+    store.add(rustls::pki_types::CertificateDer::from(der)).expect("root");
+    let config = rustls::ClientConfig::builder().with_root_certificates(store).with_no_client_auth();
+    settings.set_config(Arc::new(config))
+}
+
+pub const BACKEND: &str = if cfg!(feature = "rustls-backend") { "rustls" } else { "native-tls" };
 
 // ------------------------------------------------------------------------------------------
 // Scripted peer (std threads, blocking I/O with real-time safety timeouts)
@@ -229,7 +288,7 @@ fn bind_response(id: i64, text: &str) -> Vec<u8> {
     ber::encode(&msg::resp_tlv(&msg::Resp { id, op: msg::RespOp::Result { tag: 1, res: msg::ResultSpec::simple(0, text) }, ctrls: None }))
 }
 
-fn tls_peer(mut s: TcpStream, scheme_starttls: bool, starttls: StartTlsResp, tls: TlsBehaviour, log: &Arc<Mutex<PeerLog>>, stop: &Arc<std::sync::atomic::AtomicBool>) {
+fn tls_peer(mut s: TcpStream, scheme_starttls: bool, starttls: StartTlsResp, tls: TlsBehaviour, rogue: bool, log: &Arc<Mutex<PeerLog>>, stop: &Arc<std::sync::atomic::AtomicBool>) {
     let _ = s.set_read_timeout(Some(IO_GUARD));
     let _ = s.set_write_timeout(Some(IO_GUARD));
     let mut buf: Vec<u8> = Vec::new();
@@ -264,6 +323,14 @@ fn tls_peer(mut s: TcpStream, scheme_starttls: bool, starttls: StartTlsResp, tls
                     }
                     StartTlsResp::Code(rc) => {
                         let _ = s.write_all(&ext_response(id, rc));
+                    }
+                    StartTlsResp::CodeOctets(ref o) => {
+                        let b = ber::encode(&msg::resp_tlv(&msg::Resp {
+                            id,
+                            op: msg::RespOp::Result { tag: 24, res: msg::ResultSpec { rc_octets: Some(o.clone()), exop_name: Some(String::from_utf8_lossy(STARTTLS_OID).into_owned()), ..msg::ResultSpec::simple(1, "starttls") } },
+                            ctrls: None,
+                        }));
+                        let _ = s.write_all(&b);
                     }
                     StartTlsResp::CodeWide(w) => {
                         let b = ber::encode(&msg::resp_tlv(&msg::Resp {
@@ -343,7 +410,8 @@ fn tls_peer(mut s: TcpStream, scheme_starttls: bool, starttls: StartTlsResp, tls
         TlsBehaviour::Good => {}
     }
     let p = pki();
-    let ident = match native_tls::Identity::from_pkcs8(&p.leaf_pem, &p.leaf_key_pem) {
+    let (cert, key) = if rogue { (&p.rogue_leaf_pem, &p.rogue_leaf_key_pem) } else { (&p.leaf_pem, &p.leaf_key_pem) };
+    let ident = match native_tls::Identity::from_pkcs8(cert, key) {
         Ok(i) => i,
         Err(e) => {
             log.lock().unwrap().notes.push(format!("identity: {e}"));
@@ -424,9 +492,9 @@ fn serve_tcp(name: &str, l: TcpListener, peer: Peer, scheme_starttls: bool, log:
                     match &peer {
                         Peer::Accept | Peer::Stall => held.push(s),
                         Peer::AcceptClose | Peer::Absent => drop(s),
-                        Peer::Tls { starttls, tls } => {
-                            let (st, tl, lg, sp) = (starttls.clone(), tls.clone(), log.clone(), s2.clone());
-                            workers.push(std::thread::spawn(move || tls_peer(s, scheme_starttls, st, tl, &lg, &sp)));
+                        Peer::Tls { starttls, tls, rogue } => {
+                            let (st, tl, rg, lg, sp) = (starttls.clone(), tls.clone(), *rogue, log.clone(), s2.clone());
+                            workers.push(std::thread::spawn(move || tls_peer(s, scheme_starttls, st, tl, rg, &lg, &sp)));
                         }
                     }
                 }
@@ -438,8 +506,8 @@ fn serve_tcp(name: &str, l: TcpListener, peer: Peer, scheme_starttls: bool, log:
             *a2.lock().unwrap() += 1;
             log.lock().unwrap().accepted += 1;
             let _ = s.set_nonblocking(false);
-            if let Peer::Tls { starttls, tls } = &peer {
-                tls_peer(s, scheme_starttls, starttls.clone(), tls.clone(), &log, &s2);
+            if let Peer::Tls { starttls, tls, rogue } = &peer {
+                tls_peer(s, scheme_starttls, starttls.clone(), tls.clone(), *rogue, &log, &s2);
             }
         }
         drop(held);
@@ -523,11 +591,19 @@ fn err_class(e: &ldap3::LdapError) -> String {
         EmptyUnixPath => "EmptyUnixPath".into(),
         PortInUnixPath => "PortInUnixPath".into(),
         MismatchedStreamType => "MismatchedStreamType".into(),
+        // which of these a peer's close shows up as depends on how far the kernel got (it shows with the
+        // rustls backend, whose I/O errors are not wrapped); no oracle distinguishes them
+        Io { source } if matches!(source.kind(), std::io::ErrorKind::UnexpectedEof | std::io::ErrorKind::ConnectionReset | std::io::ErrorKind::BrokenPipe | std::io::ErrorKind::ConnectionAborted) => "Io:PeerClosed".into(),
         Io { source } => format!("Io:{:?}", source.kind()),
         Timeout { .. } => "Timeout".into(),
         UrlParsing { .. } => "UrlParsing".into(),
         UnknownScheme(_) => "UnknownScheme".into(),
+        #[cfg(feature = "native-backend")]
         NativeTLS { .. } => "NativeTLS".into(),
+        #[cfg(feature = "rustls-backend")]
+        Rustls { .. } => "Rustls".into(),
+        #[cfg(feature = "rustls-backend")]
+        DNSName { .. } => "DNSName".into(),
         LdapResult { result } => format!("LdapResult:{}", result.rc),
         ResultRecv { .. } => "ResultRecv".into(),
         OpSend { .. } => "OpSend".into(),
@@ -719,9 +795,7 @@ pub fn run_case(case: &EstabCase, tokio_seed: u64) -> EstabObs {
         settings = settings.set_conn_timeout(Duration::from_millis(t));
     }
     if case.trust_ca {
-        let ca = native_tls::Certificate::from_pem(&pki().ca_pem).expect("ca");
-        let conn = native_tls::TlsConnector::builder().add_root_certificate(ca).build().expect("connector");
-        settings = settings.set_connector(conn);
+        settings = trust_harness_ca(settings);
     }
     if let Some(s) = std_stream {
         settings = settings.set_std_stream(s);
